@@ -501,7 +501,7 @@ def batches(tier, seed):
     total = len(R.shapes(N))
     step = total // 16 + 1
     b = [('batch_native', [N, lo, lo + step, seed + lo]) for lo in range(0, total, step)] + [('batch_filter_pairs', [seed])]
-    b += [('batch_ctc_metrics', ['depth1', 0, 100000, seed]), ('batch_ctc_metrics', ['mixed', 0, 100000, seed])]
+    b += [('batch_ctc_metrics', ['depth1', 0, 100000, seed]), ('batch_ctc_metrics', ['mixed', 0, 100000, seed]), ('batch_tall', [])]
     b += [('batch_ctc_metrics', ['depth2r', lo, lo + 1352, seed]) for lo in range(0, 4056, 1352)]
     b += [('batch_ctc_metrics', ['nnf3', lo, lo + 2048, seed]) for lo in range(0, 8192, 2048)]
     if tier != 'quick':
@@ -616,4 +616,61 @@ def batch_ctc_metrics(which, lo, hi, seed):
                 if len(res['violations']) >= 4:
                     return res
     res['sample'] = {'family': which, 'tree': repr(part[-1]) if part else None}
+    return res
+
+
+# -- tall models: "for every well-formed model the metrics report is produced without error" -----------------------
+
+def replay_tall(depth, siblings, filtered=False):
+    """a spine of `depth` mandatory features (optionally each with an optional leaf sibling), built iteratively; the
+    report must be produced under the interpreter's default recursion limit and its depth metrics equal the facts."""
+    import sys
+    from flamapy.metamodels.fm_metamodel.models import Feature, Relation, FeatureModel
+    root = Feature('R')
+    cur = root
+    for i in range(depth):
+        c = Feature('S%d' % i)
+        cur.add_relation(Relation(cur, [c], 1, 1))
+        if siblings:
+            cur.add_relation(Relation(cur, [Feature('O%d' % i)], 0, 1))
+        cur = c
+    m = FeatureModel(root, [])
+    old = sys.getrecursionlimit()
+    sys.setrecursionlimit(1000)
+    try:
+        op = FMMetrics()
+        if filtered:
+            op.only_these_metrics(['features', 'leaf_features'])
+        try:
+            res = op.execute(m).get_result()
+        except RecursionError:
+            return ['FMMetrics raises RecursionError on a well-formed model of depth %d (filter: %r)' % (depth, filtered)]
+        except Exception as exc:
+            return ['FMMetrics raises %s: %s on a model of depth %d' % (type(exc).__name__, exc, depth)]
+    finally:
+        sys.setrecursionlimit(old)
+    by = {e['name']: e for e in res}
+    out = []
+    nfeat = 1 + depth * (2 if siblings else 1)
+    if 'Features' in by and by['Features'].get('size') != nfeat:
+        out.append('Features: size %r, expected %d' % (by['Features'].get('size'), nfeat))
+    if not filtered:
+        for name in ('Depth of tree', 'Max depth of tree'):
+            if name in by and by[name].get('result') != depth:
+                out.append('%s: %r, expected %d' % (name, by[name].get('result'), depth))
+    return out
+
+
+def batch_tall():
+    res = {'instances': 0, 'nontrivial': 0, 'violations': [], 'native_runs': 0}
+    for depth in (1, 300, 990, 1500, 3000):
+        for siblings in (False, True):
+            for filtered in (False, True):
+                res['instances'] += 1
+                res['native_runs'] += 1
+                res['nontrivial'] += 1
+                bad = replay_tall(depth, siblings, filtered)
+                if bad:
+                    res['violations'].append({'label': 'tall-model', 'detail': bad[0], 'replay_func': 'replay_tall', 'replay_args': [depth, siblings, filtered]})
+    res['sample'] = {'depths': [1, 300, 990, 1500, 3000], 'recursion_limit': 1000}
     return res
